@@ -130,6 +130,10 @@ func (p *Parser) parseNotationInComments(notations []*ast.Comment, validOps map[
 				return logger.Errorf("%v: needs <dst> <literal> args", p.fset.Position(n.Pos()))
 			}
 			m = reLiteral.FindStringSubmatch(m[2])
+			if m == nil {
+				// <dst> and <literal> are not separated by plain white space.
+				return logger.Errorf("%v: needs <dst> <literal> args", p.fset.Position(n.Pos()))
+			}
 			if _, err := goparser.ParseExpr(m[1]); err != nil {
 				return logger.Errorf("%v: <literal> is not a valid expression", p.fset.Position(n.Pos()))
 			}
